@@ -322,7 +322,8 @@ def basic_index(kinds: str, maxlen: int = 5, maxstep: int = 3) -> JobOut:
     for d, k in enumerate(kinds):
         if k == "s":
             smp2 |= {f"a{d}": 0, f"b{d}": None, f"c{d}": min(2, maxstep)}
-    return JobOut(obs=[FnOb(f"basic_index/{kinds}", params, body, pre, [smp, smp2], timeout=600,
+    return JobOut(obs=[FnOb(f"basic_index/{kinds}", params, body, pre, [smp, smp2],
+                            timeout=600 if kinds.count("s") < 2 else 3000,
                             unbounded=tuple(unb), replay=_generic_numeric(np_build),
                             info={"node": "BasicIndex", "pattern": kinds,
                                   "axis_lengths": f"0..{maxlen} symbolic",
@@ -651,7 +652,7 @@ def jobs(tier: str, seed: int):
 
     def add(factory, **kw):
         jid = factory + "/" + "/".join(f"{k}={v}" for k, v in kw.items())
-        J.append(Job(MOD, factory, kw, jid=jid, hard_timeout=1500 if tier == "thorough" else 700))
+        J.append(Job(MOD, factory, kw, jid=jid, hard_timeout=3600 if tier == "thorough" else 700))
 
     thorough = tier == "thorough"
     L = 5 if thorough else 4
@@ -670,12 +671,13 @@ def jobs(tier: str, seed: int):
         add("reshape", old_nd=o, new_nd=n, order="C", maxlen=4 if thorough else 3, infer=True)
         add("reshape", old_nd=o, new_nd=n, order="F", maxlen=4 if thorough else 3, infer=True)
     if thorough:
-        pats = [("i", 5, 4), ("s", 6, 4), ("is", 5, 3), ("si", 5, 3), ("ss", 4, 3), ("se", 5, 3), ("ie", 5, 3), ("sis", 4, 2),
-                ("ii", 5, 1), ("sss", 3, 1), ("iss", 3, 2), ("ssi", 3, 2), ("sie", 4, 2), ("see", 4, 2), ("isis", 3, 1)]
+        # (two unbounded slices multiply their path counts: ~10^4 paths already for lengths <= 2)
+        pats = [("i", 5, 4), ("s", 6, 4), ("is", 4, 2), ("si", 4, 2), ("ss", 2, 1), ("se", 4, 3), ("ie", 5, 3), ("sis", 2, 1),
+                ("ii", 5, 1), ("sie", 3, 1), ("see", 3, 2)]
     else:
         # (axes are processed independently by the code under test: the deep domains are on the
         #  single-axis patterns, multi-axis patterns use small ones -- paths multiply)
-        pats = [("i", 5, 3), ("s", 5, 3), ("is", 3, 1), ("si", 3, 1), ("ss", 2, 1), ("se", 3, 2), ("ie", 4, 2)]
+        pats = [("i", 5, 3), ("s", 5, 3), ("is", 3, 1), ("si", 3, 1), ("se", 3, 2), ("ie", 4, 2)]
     for pat, ml, ms in pats:
         add("basic_index", kinds=pat, maxlen=ml, maxstep=ms)
     for nd, narr in [(1, 1), (1, 2), (2, 2), (2, 3), (0, 2)] + ([(3, 2), (2, 4)] if thorough else []):
@@ -686,16 +688,17 @@ def jobs(tier: str, seed: int):
             add("concatenate", ndim=nd, narr=narr, axis=ax, maxlen=L)
     adv = [("A", (1,)), ("A", (3,)), ("A:", (1,)), (":A", (1,)), ("AA", (1, 1)), ("AA", (3, 4)), ("A:A", (1, 1)),
            ("Ai", (1,)), ("iA", (1,)), ("A:i", (1,)), ("sA", (1,)), ("As", (1,)), ("AsA", (1, 2)), (":A:", (3,)),
-           ("A", (0,))]
+           ("A", (0,)), ("Ai:", (1,)), (":Ai:", (1,)), ("AAi:", (1, 1))]
     if thorough:
-        adv += [("AAA", (1, 2, 1)), ("A:A", (3, 5)), ("sAs", (1,)), ("iAs", (3,)), ("Asi", (1,)), ("A::", (1,)),
+        adv += [("Ais", (3,)), ("AAA", (1, 2, 1)), ("A:A", (3, 5)), ("sAs", (1,)), ("iAs", (3,)), ("Asi", (1,)), ("A::", (1,)),
                 ("::A", (4,)), ("AA:", (1, 5)), (":AA", (5, 1)), ("i:A", (1,)), ("isA", (1,)), ("AiA", (1, 1))]
     for pat, sel in adv:
         if thorough:
             add("advanced_index", pattern=pat, shp_sel=sel, maxlen=4 if len(pat) < 3 else 3,
                 maxstep=2 if pat.count("s") < 2 else 1)
         else:
-            add("advanced_index", pattern=pat, shp_sel=sel, maxlen=2 if "s" in pat and len(pat) > 2 else 3,
+            # (an unbounded symbolic slice next to an index array costs 100-500 s at length 3)
+            add("advanced_index", pattern=pat, shp_sel=sel, maxlen=2 if "s" in pat else 3,
                 maxstep=1 if "s" in pat else 2)
     for spec, nops in _EINSUMS if thorough else _EINSUMS[:12]:
         add("einsum", spec=spec, bcast=0, maxlen=3)
